@@ -5,21 +5,30 @@ import (
 	"io"
 	"net"
 	"sync"
+	"sync/atomic"
+	"time"
 
 	ws "github.com/gorilla/websocket"
 	"github.com/zishang520/engine.io-go-parser/packet"
 	"github.com/zishang520/engine.io/v2/log"
 	"github.com/zishang520/engine.io/v2/types"
+	"github.com/zishang520/engine.io/v2/utils"
 	"github.com/zishang520/engine.io/v2/verifhook"
 )
 
 var ws_log = log.NewLog("engine:ws")
+
+// how long a websocket / webtransport close waits for a batch that is still being written
+const streamCloseTimeout = 30 * time.Second
 
 type websocket struct {
 	Transport
 
 	socket *types.WebSocketConn
 	mu     sync.Mutex
+	// batches handed to Send that their writer goroutine has not written yet
+	inflight      atomic.Int32
+	closeWhenIdle atomic.Bool
 }
 
 // WebSocket transport
@@ -126,6 +135,7 @@ func (w *websocket) onMessage(data types.BufferInterface) {
 // Writes a packet payload.
 func (w *websocket) Send(packets []*packet.Packet) {
 	w.SetWritable(false)
+	w.inflight.Add(1)
 	go w.send(packets)
 }
 func (w *websocket) send(packets []*packet.Packet) {
@@ -138,6 +148,12 @@ func (w *websocket) send(packets []*packet.Packet) {
 
 	w.mu.Lock()
 	defer w.mu.Unlock()
+	// the batch is out (or failed): a close that waited for it may go on
+	defer func() {
+		if w.inflight.Add(-1) == 0 && w.closeWhenIdle.Load() {
+			w.socket.Close()
+		}
+	}()
 
 	for _, packet := range packets {
 		// always creates a new object since ws modifies it
@@ -232,7 +248,17 @@ func (w *websocket) write(data types.BufferInterface, compress bool) {
 // Closes the transport.
 func (w *websocket) DoClose(fn types.Callable) {
 	ws_log.Debug(`closing`)
-	defer w.socket.Close()
+	// Send returns before its batch is written: unless the transport was discarded, the
+	// connection is closed behind a batch still in flight (by its writer, or after
+	// streamCloseTimeout, like the polling transport's orderly close) instead of cutting it off
+	defer func() {
+		w.closeWhenIdle.Store(true)
+		if w.inflight.Load() == 0 || w.Discarded() {
+			w.socket.Close()
+		} else {
+			utils.SetTimeout(func() { w.socket.Close() }, streamCloseTimeout)
+		}
+	}()
 	if fn != nil {
 		fn()
 	}
